@@ -12,7 +12,9 @@ CHECKS = {
     "C05": ("S", "model_checking",
             "Explicit-state BFS over all call sequences of a 32-operation alphabet (3 prefix-related pids, 2 contents, "
             "3 cids, all nine public methods) run to closure on the real FileHashStore; every transition is checked "
-            "against a reference model and an independent abstraction of the directory tree. Alignment sweep: reference lists whose "
+            "against a reference model and an independent abstraction of the directory tree. List-order closure: five pids related as "
+            "tails / heads of one another tagged to and deleted from one cid in every order (652 states, every ordered subset as list "
+            "content). Alignment sweep: reference lists whose "
             "line ends fall on EVERY character offset 1..10240 (filler pid of every length 1..1024 followed by 1024-character "
             "lines; thorough: also with two-byte characters), audited after every one of 24 calls per list. Boundary windows: a "
             "target pid of 1- to 4-byte characters whose line starts / ends at every byte offset B-8..B+8 for block sizes B = 4 KiB .. "
@@ -194,7 +196,9 @@ CHECKS.update({
             "bystander checked after every step; every mutating file-system operation is recorded by the interposition "
             "layer and must lie inside the root at a path made of hash tokens only. Formats: all ordered pairs of a 39-element "
             "format alphabet (near misses of the default namespace, case variants, NFC / NFD / compatibility spellings, path-like, "
-            "3000-character strings) on one pid - documents never stand in for, overwrite or delete one another.", E_NOTE,
+            "3000-character strings) on one pid - documents never stand in for, overwrite or delete one another. Triples: all "
+            "ordered triples of a 14-element core of related identifiers (prefix / suffix chains, case, NFC / NFD, path- and marker-like), "
+            "two store orders each, a three-entry model checked after each of 10 steps.", E_NOTE,
             "bounded-exhaustive enumeration of identifier pairs with a recorded-path containment oracle", "4/C18"),
     "C20": ("E", "exploration",
             "Every client verb x option subset x value kind executed through hashstoreclient.main() on one copy of a store "
